@@ -31,6 +31,10 @@ extern "C" {
 namespace dec {
 using pbt::Choices;
 
+inline std::string tmpDir() {
+  const char *t = getenv("VERIF_TMP");
+  return t && *t ? std::string(t) : std::string("/verif/build/tmp");
+}
 inline std::string verifDir() {
   const char *e = getenv("VERIF_DIR");
   return e ? e : VERIF_DIR;
